@@ -431,13 +431,13 @@ Section Clauses.
 
   (* Model ⊑ monitor: the trace monitor accepts what the Model does with any datagram (guard: the
      response the handler's answer leads to is shorter than 65536 bytes, so its Length field is exact) *)
-  Lemma monitor_accepts_model stale dg hr tbl fl :
+  Lemma monitor_accepts_model stale dg hr tbl fl ma :
     (forall c called req resp, proc true stale dg = Handle c called req resp ->
                                (N.of_nat (length resp) < 65536)%N) ->
     let ss := {| s_secret := secret; s_coa_set := coa_set; s_dm_set := dm_set |} in
     accept (fun k => Some (H k)) ss
            {| o_dg := dg; o_hr := hr; o_authentic := s_complete dg && req_verifies secret H dg;
-              o_tbl := tbl; o_md5 := fl |}
+              o_tbl := tbl; o_md5 := fl; o_ma := ma |}
            (obs_of (proc true stale dg)) = inl ss.
   Proof.
     intros G ss. unfold accept. cbn [o_dg o_authentic s_secret s_coa_set s_dm_set ss].
@@ -476,6 +476,21 @@ Section Clauses.
         by (symmetry; apply orb_true_iff; destruct Hcode as [X|X]; [left|right]; apply N.eqb_eq; exact X).
       rewrite Hlen, Nat.eqb_refl. cbn [negb].
       rewrite <- Hauth. rewrite (proj2 (bytes_eqb_eq _ _) eq_refl). reflexivity.
+  Qed.
+
+  (* the response the Model emits, judged as a byte string by the Spec's wire-level predicate *)
+  Lemma response_wire stale dg c called req resp :
+    proc true stale dg = Handle c called req resp ->
+    (N.of_nat (length resp) < 65536)%N -> resp_wire_ok H secret dg resp = true.
+  Proof.
+    intros E G. destruct (response_props stale dg c called req resp E)
+      as (Hc & _ & _ & Hid & Hcode & Hauth & Hlen & H20).
+    specialize (Hlen G). unfold resp_wire_ok. subst c.
+    replace (Nat.leb 20 (length resp)) with true by (symmetry; apply Nat.leb_le; exact H20).
+    rewrite Hid, N.eqb_refl.
+    replace (N.eqb (nth 0 resp 0%N) (s_code dg + 1) || N.eqb (nth 0 resp 0%N) (s_code dg + 2)) with true
+      by (symmetry; apply orb_true_iff; destruct Hcode as [X|X]; [left|right]; apply N.eqb_eq; exact X).
+    rewrite Hlen, Nat.eqb_refl, <- Hauth. cbn [andb]. apply bytes_eqb_eq. reflexivity.
   Qed.
 End Clauses.
 
